@@ -88,7 +88,12 @@ def run(ctx):
             e._protocol = ezsp.EZSP._BY_VERSION[version](e.handle_callback, None)
             e._ezsp_version = version
             app._ezsp = e
+            # earlier life of the callback registry: a temporary listener (a scan's) is registered before the application attaches
+            # and removed after it; another temporary listener starts later.  The application's handler stays attached.
+            lid = e.add_callback(lambda name, args: None)
             e.add_callback(app.ezsp_callback_handler)
+            e.remove_callback(lid)
+            e.add_callback(lambda name, args: None)
 
             async def _set_mfg(code=None, **kw):
                 return [t.EmberStatus.SUCCESS]
